@@ -87,6 +87,52 @@ def _contains_all(res, objs, op):
     return bad
 
 
+FAR_B = {2: 10 ** 8, 3: 4 * 10 ** 5}
+
+
+def far_cases(fam, cases):
+    """The configuration translated far from the origin by the integer vector (B, .., B) (exact on integers: points
+    (x, w) -> (x + B w, w), hyperplanes (n, d) -> (n, d - B sum(n)); join and meet commute with it).  The products inside
+    join / meet then exceed 2^53 but not 2^63: on integer coordinates the result must still be EXACTLY proportional to the
+    translated exact result (checked with rational arithmetic on the returned floats, which are the exact integers times a
+    power of two)."""
+    from fractions import Fraction
+    op, dim, kinds = FAMS[fam]
+    g = import_geometer()
+    B = FAR_B[dim]
+    out = []
+
+    def tr(kind, v):
+        v = [int(x) for x in v]
+        if kind == "point":
+            return v[:-1] and [x + B * v[-1] for x in v[:-1]] + [v[-1]]
+        return v[:-1] + [v[-1] - B * sum(v[:-1])]
+
+    for c in cases:
+        if c["e"] != "none":
+            continue
+        args = [tr(k, v) for k, v in zip(kinds, c["a"])]
+        exp = tr(c["k"], c["v"])
+        site = f"{op}({','.join(kinds)})/{dim}D/single/far-from-origin"
+        try:
+            objs = [build(k, np.array(v, dtype=np.int64)) for k, v in zip(kinds, args)]
+            st, res = _call(op, objs)
+            if st == "exc":
+                out.append(dict(cls="raise-on-independent", site=site, stratum=c["s"], case={"args": args}, expected={"k": c["k"], "v": exp},
+                                observed=f"raised {err_name(res)}: {res}"))
+                continue
+            got = [Fraction(float(x)) for x in np.asarray(coords_of(res)).real.reshape(-1)]
+            ok = kind_of(res) == c["k"] and len(got) == len(exp) and any(got) and \
+                all(got[i] * exp[j] == got[j] * exp[i] for i in range(len(exp)) for j in range(i + 1, len(exp)))
+            if not ok:
+                out.append(dict(cls="value", site=site, stratum=c["s"], case={"args": args}, expected={"k": c["k"], "v": exp},
+                                observed={"coords": [float(x) for x in got]}))
+        except Exception as e:  # noqa: BLE001
+            out.append(dict(cls="value", site=site, stratum=c["s"], case={"args": args}, expected={"k": c["k"], "v": exp},
+                            observed=f"raised {type(e).__name__}: {e}"))
+    return out
+
+
 def single_cases(fam, cases, variants=("fn",)):
     """Each case through the single-object API. Returns mismatch dicts."""
     op, dim, kinds = FAMS[fam]
@@ -429,6 +475,8 @@ def _work(job):
             return empty_case(job[1])
         if kind == "complex":
             return complex_cases(job[1])
+        if kind == "far":
+            return far_cases(job[1], job[2])
     except Exception as e:  # noqa: BLE001  -- a bug of the harness, not a verdict
         import traceback
 
@@ -492,6 +540,9 @@ def run(ctx: Ctx) -> int:
                 jobs.append(("single", f, same[i:i + 400], ("same-object",)))
         for i in range(0, len(gsel), 400):
             jobs.append(("single", f, gsel[i:i + 400], tuple(variants)))
+        if f in ("j2pp", "m2ll", "j3ppp", "m3eee") and prop == "C01":
+            for i in range(0, len(gsel), 400):
+                jobs.append(("far", f, gsel[i:i + 400]))
         # collections: (a) all-independent batches -> values; (b) mixed batches -> error + mask
         si = 0
         i = 0
@@ -568,6 +619,13 @@ def run(ctx: Ctx) -> int:
                           (m["cls"] in ("silent", "error-class", "mask", "raise-on-independent"))
                 if inscope:
                     ctx.mismatch(m["site"], m["stratum"], m["case"], m["expected"], m["observed"], m["cls"])
+            continue
+        if job[0] == "far":
+            nrep += len(job[2])
+            for m in res:
+                if m["cls"] == "machinery":
+                    raise MachineryError(m["observed"])
+                ctx.mismatch(m["site"], m["stratum"], m["case"], m["expected"], m["observed"], m["cls"])
             continue
         cs = [] if job[0] == "empty" else (job[2] if job[0] != "rt" else job[1])
         nrep += len(cs) * (len(job[3]) if job[0] == "single" else 1)
